@@ -63,6 +63,26 @@ Theorem C31_at_most_once :
 Proof. exact c31_at_most_once. Qed.
 Print Assumptions C31_at_most_once.
 
+(* PROGRESS (needed for "each exits"): under the lock there is no deadlock - in every reachable state in
+   which some process has not exited some event is enabled; the requests contain their dependencies
+   (what `plz build` works on).  Every enabled event strictly consumes work (a target leaves todo, an
+   in-flight target moves on), so a schedule that keeps taking enabled events reaches `finished`. *)
+Theorem C31_no_deadlock :
+  forall (key : Type) (key_eqb : key -> key -> bool) (H : target -> list val -> key)
+         (act : target -> list val -> option val),
+    (forall a b, key_eqb a b = true <-> a = b) -> (forall t a b, H t a = H t b -> a = b) ->
+  forall r, wf_repo r = true -> forall s0, trusted key H act r s0 ->
+  forall todos sched, requests_ok act r todos -> (forall ts, In ts todos -> deps_closed ts) ->
+    let st := run key key_eqb H act true sched (init key s0 todos) in
+    finished key st = false -> exists e, step key key_eqb H act true st e <> None.
+Proof. exact c31_no_deadlock. Qed.
+Print Assumptions C31_no_deadlock.
+
+Example C31_no_deadlock_nonvacuous :
+  (forall ts, In ts [ex_repo; ex_repo] -> deps_closed ts)
+  /\ finished ckey (cinit (empty_store ckey) [ex_repo; ex_repo]) = false.
+Proof. split; [exact ex_deps_closed|vm_compute; reflexivity]. Qed.
+
 (* The model's events follow the source as it is now (regenerated by gotrans on every run): the target
    lock is taken first and held to the end of buildTarget, needsBuilding is asked under it, the record
    is written after the outputs are moved, the flock is exclusive and blocking, the repo lock is shared. *)
